@@ -52,6 +52,35 @@ def gen_zf(rng, tier):
         big += [b"a. 1 IN WKS 1.2.3.4 6 65535"]
     for f in big:
         yield f"zf {rng.choice(['w', 'b4096', 'b1'])} {hx(f)}"
+    # types with a syntax of their own written in the RFC 3597 form with RDATA that is NOT valid for the type
+    # (valid RDATA with octets appended, removed or altered): the parser must refuse them, never yield them
+    fixed_bad = [b". 0 IN NS \\# 2 0000", b"x. 5 CH PTR \\# 6 016100 ( 01 \n 6200 )", b"a. 60 IN NS \\# 4 00c0ffee", b"a. 1 IN A \\# 5 0102030405",
+                 b"a. 1 IN AAAA \\# 15 " + b"00" * 15, b"a. 1 IN MX \\# 4 00010000", b"a. 1 IN SOA \\# 23 0000" + b"00" * 21, b"a. 1 IN SRV \\# 8 0001000200030000",
+                 b"a. 1 IN HINFO \\# 3 016100", b"a. 1 IN HINFO \\# 5 0161016200", b"a. 1 IN TXT \\# 3 026161 00", b"a. 1 IN MINFO \\# 3 000000", b"a. 1 CH A \\# 4 00000100",
+                 b"a. 1 IN WKS \\# 4 01020304"]
+    for f in fixed_bad:
+        yield f"zf w {hx(f)}"
+    for i in range(400 if quick else 10000):
+        t, c, fields = zfgen.rand_rdata(rng, False, rng.random() < 0.3)
+        while t not in zfgen.TYPE_NAMES or (fields and fields[0][0] == "gen"):
+            t, c, fields = zfgen.rand_rdata(rng, False, rng.random() < 0.3)
+        d = bytearray(zfgen.rdata_octets(fields))
+        r = rng.random()
+        if r < 0.5 or not d:
+            d += bytes(rng.randrange(256) for _ in range(rng.choice([1, 1, 2, 3])))
+        elif r < 0.8:
+            del d[rng.randrange(len(d)):]
+        else:
+            d[rng.randrange(len(d))] = rng.randrange(256)
+        h = bytes(d).hex()
+        words = [h]
+        if d and rng.random() < 0.3:
+            cut = 2 * rng.randint(1, len(d))
+            words = [w for w in (h[:cut], h[cut:]) if w]
+        cls = c if c is not None else rng.choice([1, 1, 3, 4])
+        line = b"a. 1 " + zfgen.render_class(rng, cls, caseless) + b" " + zfgen.render_type(rng, t, caseless) + b" \\# %d " % len(d) + " ".join(words).encode()
+        tail = rng.choice([b"\n", b"\nb. 1 IN A 1.2.3.4\n", b""])
+        yield f"zf {modes(rng)} {hx(line + tail)}"
     n = 6000 if quick else 150000
     for i in range(n):
         base, _ = zfgen.gen_file(rng, caseless=caseless)
@@ -65,6 +94,60 @@ def gen_zf(rng, tier):
         else:
             data = zfgen.junk(rng)
         yield f"zf {modes(rng)} {hx(data)}"
+
+
+def gen_ro(rng, tier):
+    """The records-only iterator (Parser::records_only()): files in which a well-formed `$INCLUDE path [origin]`
+    line is followed by more records, plain files, and mutants."""
+    quick = tier == "quick"
+    caseless = caseless_in_tree()
+    fixed = [b"", b"$INCLUDE f\n", b"$INCLUDE f\na. 1 IN A 1.2.3.4\n", b"a. 1 IN A 1.2.3.4\n$INCLUDE f\nb. 1 IN A 1.2.3.5\nc. 1 IN A 1.2.3.6\n",
+             b"a. 1 IN A 1.2.3.4\n$INCLUDE \"g h\" o.\n  A 1.2.3.5\n", b"$INCLUDE f\n$INCLUDE g\n", b"$INCLUDE f\n)\n", b"$INCLUDE\na. 1 IN A 1.2.3.4\n",
+             b"$ORIGIN e.\n$TTL 5\n@ IN NS a\n$include sub.zone sub\nwww IN A 192.0.2.1\nmail IN MX 5 www\n", b"a. 1 IN A 1.2.3\nb. 1 IN A 1.2.3.4\n",
+             b"a. 1 IN A 1.2.3.4\n$INCLUDE f ; c\n( b. 1\n IN A 1.2.3.5 )"]
+    for f in fixed:
+        for m in ("w", "b1"):
+            yield f"zro {m} {hx(f)}"
+    n = 2500 if quick else 60000
+    for i in range(n):
+        r = rng.random()
+        if r < 0.6:
+            a, _ = zfgen.gen_file(rng, caseless=caseless, nlines=rng.choice([0, 1, 2, 3, 5]))
+            b, _ = zfgen.gen_file(rng, caseless=caseless, nlines=rng.choice([1, 2, 3, 5, 8]))
+            if a and not a.endswith(b"\n"):
+                a += b"\n"
+            path = zfgen.rand_string(rng, 12) or b"f"
+            inc = rng.choice([b"$INCLUDE", b"$include", b"$Include"]) + rng.choice([b" ", b"\t", b"  "]) + zfgen.render_string(rng, path)
+            if rng.random() < 0.5:
+                inc += b" " + zfgen.render_name(rng, zfgen.rand_name(rng), None)
+            if rng.random() < 0.2:
+                inc += b" ; " + zfgen.rand_comment(rng)
+            data = a + inc + rng.choice([b"\n", b"\r\n"]) + b
+            if rng.random() < 0.15:
+                data = zfgen.mutate(rng, data)
+        elif r < 0.8:
+            data, _ = zfgen.gen_file(rng, caseless=caseless)
+        else:
+            base, _ = zfgen.gen_file(rng, caseless=caseless)
+            data = zfgen.mutate(rng, base)
+        yield f"zro {modes(rng)} {hx(data)}"
+
+
+def nontrivial_ro(case, impl, model, oracle):
+    # an "include not supported" error was produced after at least one record, or records were yielded
+    return "IncludeNotSupported" in impl or impl.startswith("R")
+
+
+def classify_ro(case, impl, model, oracle):
+    if impl in ("panic", "timeout", "crash"):
+        return impl
+    items = impl.split(" ; ")[:-1]
+    if not items:
+        return "empty"
+    last = items[-1]
+    if last.startswith("E"):
+        return "err:" + last.split(" ", 1)[1].split(":")[0] + (":after-records" if len(items) > 1 else "")
+    return "ok:%s" % ("1" if len(items) == 1 else "2-4" if len(items) < 5 else "5+")
 
 
 def oracle_zf(case, impl, oracle):
@@ -198,17 +281,27 @@ def gen_std(rng, tier):
 CHECK = {
     "property": "C24",
     "props": "Props/C24.v",
-    "theorems": ["c24_total", "c24_stops", "c24_stops_run", "c24_valid", "c24_owner_absolute", "c24_include_origin"],
+    "theorems": ["c24_total", "c24_stops", "c24_stops_run", "c24_valid", "c24_owner_absolute", "c24_include_origin",
+                 "c24_records_only_total", "c24_records_only_stops", "c24_records_only_stops_run", "c24_records_only_include"],
     "allowed_axioms": [],
     "suites": [
         {"name": "zonefuzz", "runner_name": "C24_run", "impl_bin": "impl_c24", "extract": "Extract/ExC24.v", "driver": "run_c24.ml",
          "gen": gen_zf, "nontrivial": nontrivial_zf, "classify": classify_zf, "oracle_ok": oracle_zf,
          "exhaustive": {"quick": False, "thorough": False},
-         "rule": ("hand-written boundary files (both whole and 1-octet-at-a-time streams), oversize field / include path / TXT / WKS inputs, and seeded inputs: "
+         "rule": ("hand-written boundary files (both whole and 1-octet-at-a-time streams), oversize field / include path / TXT / WKS inputs, types with a syntax of "
+                  "their own written in the RFC 3597 form with RDATA that is invalid for the type (valid RDATA with octets appended / removed / altered), and seeded inputs: "
                   "25% well-formed files from the structured generator (all RR types, $ORIGIN/$TTL/$INCLUDE, parentheses, comments, escapes, \\# RDATA, LF/CRLF), "
                   "50% truncation/insertion/deletion/replacement/duplication mutants of such files, 15% token soups from a zone-file vocabulary, 10% random octets; "
                   "each fed through Read impls returning everything / 1 / 2 / 3 / 7 / 4096 octets per call; "
                   "non-trivial = at least one record or $INCLUDE was yielded, or the first error lies beyond line 1 column 1; distinct = distinct case line")},
+        {"name": "recordsonly", "runner_name": "C24_run", "impl_bin": "impl_c24", "extract": "Extract/ExC24.v", "driver": "run_c24.ml",
+         "gen": gen_ro, "nontrivial": nontrivial_ro, "classify": classify_ro, "oracle_ok": oracle_zf,
+         "exhaustive": {"quick": False, "thorough": False},
+         "rule": ("the iterator returned by Parser::records_only() (what the zone loader consumes), against the model of RecordsOnly (Model/ZfRecOnly.v): "
+                  "hand-written files, 60% generated files in which a well-formed `$INCLUDE path [origin]` line (any case, quoted/unquoted path, optional comment) "
+                  "is followed by further generated records, 20% plain generated files, 20% mutants; same property predicate as zonefuzz (an error item, "
+                  "including the iterator's own IncludeNotSupported, must be the last item and three further next() calls must yield nothing); "
+                  "non-trivial = records were yielded or the include error was produced")},
         {"name": "std", "runner_name": "C24_run", "impl_bin": "impl_c24", "extract": "Extract/ExC24.v", "driver": "run_c24.ml",
          "gen": gen_std, "nontrivial": lambda case, impl, model, oracle: impl.startswith("ok") or impl.startswith("err"),
          "classify": lambda case, impl, model, oracle: case.split()[0] + ":" + impl.split()[0] + (":" + impl.split()[1] if impl.startswith("err ") else ""),
